@@ -187,9 +187,7 @@ def r5(ctx, R):
         R.check(ok, f'{cn}.prepare_next_block :: every level of the step gets the spread step size', w, 'for i in range(len(S.levels)): S.levels[i].params.dt = new_steps[i]', [c.describe() for c in st])
         src = [c for c in N.contribs if c.target.startswith('new_steps[') and c.rhs and c.rhs.startswith('min(')]
         if cn.endswith('NonMPI'):
-            ok = len(src) == 1 and 'MS[spread_from_step].levels' in ast.unparse(fn)
-            lv = [c for c in N.contribs if c.target == 'l' and c.rhs and 'spread_from_step' in c.rhs]
-            ok = ok and len(lv) == 1 and lv[0].rhs == 'MS[spread_from_step].levels[i1 - 1]'
+            ok = len(src) == 1 and src[0].rhs.startswith('min([MS[spread_from_step].levels[i1 - 1].status.dt_new if MS[spread_from_step].levels[i1 - 1].status.dt_new is not None else MS[spread_from_step].levels[i1 - 1].params.dt,')
         else:
             ok = len(src) == 1 and src[0].guards and src[0].guards[0] == 'S.status.slot == spread_from_step' and any(c[0] == 'comm.bcast(new_steps, root=spread_from_step)' for c in N.calls)
         R.check(ok, f'{cn}.prepare_next_block :: the value comes from ONE step of the block (spread_from_step)', w, 'levels of MS[spread_from_step] / bcast(root=spread_from_step)', [c.describe()[:160] for c in src])
@@ -371,7 +369,11 @@ def r10(ctx, R):
         N = Normalizer(fn, inline_scalars=False)
         src = [c for c in N.contribs if c.target.startswith('new_steps[') and c.rhs and c.rhs.startswith('min(')]
         sk[cn] = src[0].rhs if src else None
-        ok = len(src) == 1 and src[0].rhs == 'min([l.status.dt_new if l.status.dt_new is not None else l.params.dt, max([dt_max, l.params.dt_initial])])'
+        if sk[cn]:
+            m = re.match(r'min\(\[(.+?)\.status\.dt_new if ', sk[cn])
+            if m:
+                sk[cn] = sk[cn].replace(m.group(1), 'l')
+        ok = len(src) == 1 and sk[cn] == 'min([l.status.dt_new if l.status.dt_new is not None else l.params.dt, max([dt_max, l.params.dt_initial])])'
         R.check(ok, f'{cn} :: new step = min(proposal if set else dt, max(dt_max, dt_initial))', w, 'min([dt_new if dt_new is not None else dt, max([dt_max, dt_initial])])', sk[cn])
         dm = [c for c in N.contribs if c.target == 'dt_max']
         want = '(Tend - time[restart_at] - dt_all[restart_at]) / size if self.params.overwrite_to_reach_Tend else np.inf' if cn.endswith('NonMPI') else 'comm.bcast((Tend - time) / size, root=restart_at) if self.params.overwrite_to_reach_Tend else np.inf'
